@@ -299,7 +299,8 @@ type c16Drv struct {
 	// console / terminal geometry
 	cw, ch     uint32
 	fg, bg     uint8
-	caps       int // consoles: bit 0 takes a font, bit 1 takes a logo
+	caps       int  // consoles: bit 0 takes a font, bit 1 takes a logo
+	preActive  bool // terminals: the driver switches itself to the active state in its own DriverInit
 	tab        uint8
 	scrollback uint32
 
@@ -649,6 +650,10 @@ func (e *c16Env) onInit(d *c16Drv, w io.Writer) *kernel.Error {
 	if d.initFail {
 		return &kernel.Error{Module: "c16", Message: d.errMsg}
 	}
+	if d.kind == c16KindTTY && d.preActive && d.tty != nil {
+		d.tty.SetState(tty.StateActive)
+		e.run.Count("hal_terminals_active_before_hal_links_them", 1)
+	}
 	d.initOK = true
 	e.okSeq = append(e.okSeq, d)
 	return nil
@@ -934,6 +939,9 @@ func c16Gen(r *vlib.Rand) *c16Spec {
 		if d.kind == c16KindCon && r.Chance(1, 2) {
 			d.caps = r.Range(1, 3)
 		}
+		if d.kind == c16KindTTY && r.Chance(1, 6) {
+			d.preActive = true
+		}
 	}
 	s.cmdLine = c16CmdLines[r.Intn(len(c16CmdLines))]
 	return s
@@ -959,6 +967,9 @@ func (s *c16Spec) describe() map[string]interface{} {
 			geo = fmt.Sprintf(" %dx%d%s", d.cw, d.ch, []string{"", " takes-font", " takes-logo", " takes-font-and-logo"}[d.caps])
 		} else if d.kind == c16KindTTY {
 			geo = fmt.Sprintf(" tab=%d sb=%d", d.tab, d.scrollback)
+			if d.preActive {
+				geo += " activates-itself"
+			}
 		}
 		ds = append(ds, fmt.Sprintf("%s order=%d%s%s probeLogs=%d initLogs=%d", d.name, d.order, geo, fl, len(d.probeOps), len(d.initOps)))
 	}
@@ -1171,7 +1182,7 @@ func c16Check(e *c16Env, s *c16Spec) {
 			if len(d.tty.recv) != 0 {
 				c.Violationf("inactive-terminal-written", "terminal %s (initOK=%v, first=%v) was given %d bytes", d.name, d.initOK, d == firstTTY, len(d.tty.recv))
 			}
-			if d.tty.State() == tty.StateActive {
+			if d.tty.State() == tty.StateActive && !d.preActive { // a mock that activated itself is not hal's doing
 				c.Violationf("inactive-terminal-activated", "terminal %s (initOK=%v, first=%v) is in the active state", d.name, d.initOK, d == firstTTY)
 			}
 			if kfmt.VerifC16RawSink() == interface{}(d.tty) {
@@ -1242,6 +1253,12 @@ func c16Check(e *c16Env, s *c16Spec) {
 			bad := 0
 			for i := range ref.cells {
 				g, w := firstCon.con.cells[i], ref.cells[i]
+				if firstTTY.preActive && g.st == 0 && w.ch == ' ' {
+					// a terminal that was active before hal attached it mirrors what it is given but is never
+					// asked to redraw: cells nothing was written to stay as the console had them, which the
+					// statement does not speak about
+					continue
+				}
 				if g != w {
 					if bad == 0 {
 						c.Violationf("console-cells-differ", "console %dx%d cell (%d,%d): shown {ch=%q fg=%d bg=%d state=%d} want {ch=%q fg=%d bg=%d}; stream of %d bytes, tab=%d", firstCon.cw, firstCon.ch, i%int(firstCon.cw)+1, i/int(firstCon.cw)+1, g.ch, g.fg, g.bg, g.st, w.ch, w.fg, w.bg, len(want), firstTTY.tab)
@@ -1490,7 +1507,7 @@ func TestVerifC16(t *testing.T) {
 	run := vlib.Start(t, "C16")
 	defer run.Finish()
 	run.SetRule("hal run: case = 0-10 (one case in 100: 250-330) mock drivers (consoles, terminals wrapping the real tty.VT, plain; 15% probe nil, 20% init failure; orders from the four named constants / random int8 / all equal / two values) registered in a permutation (random, consoles first, terminals first, failures first, ascending, descending), 0-6000 bytes logged before DetectHardware, further log writes from inside Probe and DriverInit (directly and through the writer hal hands to DriverInit), 0-6000 bytes logged afterwards, chunks of 1-700 bytes through four different kfmt entry points, early ring starting at offsets {0,1,1024,2040,2046,2047,random}; non-trivial = a console and a terminal initialised, at least one driver failed or probed nil, at least 3 drivers registered not already in detection order, and something was logged before the hand-over; distinct = fingerprint of (driver kinds, orders, names, failures, registration order, bytes logged, hand-over offset)")
-	run.Assume("mock drivers stand in for the shipped console/ACPI drivers; the terminal is the real tty.VT inside a recording wrapper; hal's own log lines are read back from the early ring at the next mock callback via the movement of the ring's write index, which assumes hal logs fewer than 2048 bytes between two callbacks; half of the consoles also take a font and/or a logo (mock FontSetter/LogoSetter) and every case boots with one of ten command lines (consoleFont=<known|unknown>, consoleLogo=off, unrelated words, empty) in a one-tag multiboot block; which font or logo is chosen is not judged")
+	run.Assume("mock drivers stand in for the shipped console/ACPI drivers; the terminal is the real tty.VT inside a recording wrapper; hal's own log lines are read back from the early ring at the next mock callback via the movement of the ring's write index, which assumes hal logs fewer than 2048 bytes between two callbacks; half of the consoles also take a font and/or a logo (mock FontSetter/LogoSetter) and every case boots with one of ten command lines (consoleFont=<known|unknown>, consoleLogo=off, unrelated words, empty) in a one-tag multiboot block; which font or logo is chosen is not judged; one terminal in six switches itself to the active state in its own DriverInit, before hal links it")
 
 	savedDrivers := device.VerifC16Drivers()
 	defer func() {
